@@ -183,6 +183,7 @@ type snapFileWrap struct {
 	origin  string
 	tee     bytes.Buffer
 	done    bool
+	collide bool // its directory name equals another snapshot's (harness artefact): never renamed into place
 }
 
 func (s *SnapWrap) NewSnapshotFile(index, term uint64, conf []byte) (raft.SnapshotFile, error) {
@@ -190,10 +191,14 @@ func (s *SnapWrap) NewSnapshotFile(index, term uint64, conf []byte) (raft.Snapsh
 	c := in.node.c
 	now := time.Now().UnixNano()
 	in.node.smu.Lock()
-	if in.node.lastSnapNano == now && !in.dead.Load() {
+	collide := false
+	if in.node.lastSnapNano == now {
 		// two snapshot directories of one node would get the same time-derived name, which
 		// cannot happen with a real clock: harness artefact, the case is discarded.
-		c.taint("snapshot-name-collision")
+		if !in.dead.Load() {
+			c.taint("snapshot-name-collision")
+		}
+		collide = true
 	}
 	in.node.lastSnapNano = now
 	c.fileSeq++
@@ -213,7 +218,7 @@ func (s *SnapWrap) NewSnapshotFile(index, term uint64, conf []byte) (raft.Snapsh
 	if err != nil {
 		return nil, err
 	}
-	return &snapFileWrap{SnapshotFile: f, in: in, id: id, writing: true, origin: origin}, nil
+	return &snapFileWrap{SnapshotFile: f, in: in, id: id, writing: true, origin: origin, collide: collide}, nil
 }
 
 func (s *SnapWrap) SnapshotFile() (raft.SnapshotFile, error) {
@@ -245,6 +250,9 @@ func (f *snapFileWrap) Close() error {
 		return f.SnapshotFile.Close()
 	}
 	f.done = true
+	if f.collide {
+		return f.SnapshotFile.Discard() // the case is already discarded; do not let the library abort the process
+	}
 	err := f.in.storageOp(StorageInfo{Op: "snap.close", File: f.id}, func() error { return f.SnapshotFile.Close() })
 	if err == nil && !f.in.dead.Load() {
 		md := f.SnapshotFile.Metadata()
